@@ -6,10 +6,13 @@ pub mod c07;
 pub mod c08;
 pub mod c09;
 pub mod c10;
+pub mod c11;
+pub mod c12;
+pub mod c14;
 pub mod c15;
 pub mod progx;
 pub mod vmgraph;
 
 pub fn all() -> Vec<PropSpec> {
-    vec![c05::spec(), c07::spec(), c08::spec(), c09::spec(), c10::spec(), c15::spec()]
+    vec![c05::spec(), c07::spec(), c08::spec(), c09::spec(), c10::spec(), c11::spec(), c12::spec(), c14::spec(), c15::spec()]
 }
